@@ -133,24 +133,54 @@ def rule_Y5(ctx) -> None:
     fn = parser.func("generate_code")
     src = ast.unparse(fn)
     handlers = {"direct": "DirectImportTypingCompiler", "root": "TypingImportTypingCompiler", "310": "NoTyping310TypingCompiler"}
+    from ..absint import Interp
+    from ..sym import show as _show, C
+    # the local that collects the typing.* options / the option list itself
+    tvar = next((n.targets[0].id for n in ast.walk(fn) if isinstance(n, ast.Assign) and isinstance(n.targets[0], ast.Name) and isinstance(n.value, (ast.ListComp, ast.GeneratorExp))
+                 and any(isinstance(c, ast.Constant) and c.value == "typing." for c in ast.walk(n.value))), None)
+    ovar = next((n.targets[0].id for n in ast.walk(fn) if isinstance(n, ast.Assign) and isinstance(n.targets[0], ast.Name)
+                 and any(isinstance(c, ast.Call) and isinstance(c.func, ast.Attribute) and c.func.attr == "split" for c in ast.walk(n.value))), None)
+    if tvar is None or ovar is None:
+        raise AnalysisError("generate_code: collection of the plugin options / typing.* options not found")
+
+    def selected(opts):
+        paths = Interp(parser, local_bindings={tvar: tuple(opts)}).run(fn)
+        ctx.count(len(paths))
+        vals = set()
+        for p in paths:
+            if p.outcome == "raise":
+                vals.add("raise")
+                continue
+            got = {_show(e.data[1]) for e in p.events if e.kind == "store" and e.data[0][0] == "a" and e.data[0][2] == "typing_compiler"}
+            vals |= got or {"none"}
+        return vals
+
     for opt, cls in handlers.items():
-        found = False
-        for n in ast.walk(fn):
-            if isinstance(n, ast.If) and isinstance(n.test, ast.Compare) and isinstance(n.test.comparators[0], ast.Constant) and n.test.comparators[0].value == opt:
-                if cls in " ".join(ast.unparse(b) for b in n.body):
-                    found = True
-        if found:
+        got = selected([opt])
+        if got == {f"{cls}()"}:
             ctx.proved("Y5", f"option[typing.{opt}]", parser.loc(fn))
         else:
-            ctx.refuted("Y5", f"option[typing.{opt}]", "no-handler", parser.loc(fn), f"option typing.{opt} does not select {cls}", f"--python_betterproto_opt=typing.{opt}")
-    if "len(typing_opts) > 1" in src and "raise" in src:
+            ctx.refuted("Y5", f"option[typing.{opt}]", "no-handler" if got <= {"none"} else ",".join(sorted(got)), parser.loc(fn),
+                        f"option typing.{opt} selects {sorted(got)}, not {cls}", f"--python_betterproto_opt=typing.{opt}")
+    got = selected([])
+    if got == {"DirectImportTypingCompiler()"} or got == {"none"}:
+        ctx.proved("Y5", "option[typing default]", parser.loc(fn), ",".join(sorted(got)))
+    else:
+        ctx.refuted("Y5", "option[typing default]", ",".join(sorted(got)), parser.loc(fn), f"without a typing.* option the compiler is {sorted(got)}")
+    if selected(["310", "root"]) == {"raise"}:
         ctx.proved("Y5", "typing-options-exclusive", parser.loc(fn))
     else:
         ctx.refuted("Y5", "typing-options-exclusive", "unchecked", parser.loc(fn), "several typing.* options are not rejected")
-    if "'pydantic_dataclasses' in plugin_options" in src and "pydantic_dataclasses = True" in src:
+    pyd = {}
+    for on in (True, False):
+        paths = Interp(parser, local_bindings={ovar: ("pydantic_dataclasses",) if on else ("x",), tvar: ()}).run(fn)
+        ctx.count(len(paths))
+        pyd[on] = {any(e.kind == "store" and e.data[0][0] == "a" and e.data[0][2] == "pydantic_dataclasses" and e.data[1] == C(True) for e in p.events)
+                   for p in paths if p.outcome != "raise" and any(e.kind == "loop" for e in p.events)}
+    if pyd[True] == {True} and pyd[False] == {False}:
         ctx.proved("Y5", "option[pydantic_dataclasses]", parser.loc(fn))
     else:
-        ctx.refuted("Y5", "option[pydantic_dataclasses]", "no-handler", parser.loc(fn), "the pydantic_dataclasses option is not handled")
+        ctx.refuted("Y5", "option[pydantic_dataclasses]", "no-handler", parser.loc(fn), f"the pydantic_dataclasses option is not handled (set with option: {pyd[True]}, without: {pyd[False]})")
     # pydantic-only template regions do not contain the field line
     tm = template.tmodel(ctx)
     inside = False
